@@ -70,4 +70,13 @@ every initial part of the walk, is `base` followed by something — no step ever
 def StaysInside (base : List Name) (p : List Comp) : Prop :=
   ∀ k, ∃ rest, joinResolve base (p.take k) = base ++ rest
 
+/-- The same for ANY base directory, however it is written: `base` is the component list of the base
+path as given — absolute (it starts with `rootDir`) or relative to the working directory `cwd`, with
+or without "." and ".." — and `resolveFrom cwd base` is the directory it denotes (the stack machine
+saturates at the root like the kernel: "/.." is "/").  The joined path, and the joined path cut after
+every initial part of `p`, normalises to that directory followed by something: the walk never climbs
+above the point the base itself resolves to. -/
+def StaysInsideAny (cwd : List Name) (base p : List Comp) : Prop :=
+  ∀ k, ∃ rest, resolveFrom cwd (base ++ p.take k) = resolveFrom cwd base ++ rest
+
 end ZipVerif.Spec.Paths
